@@ -913,6 +913,8 @@ func (s *AbsfsNFS) Export(mountPath string, port int) error {
 		ReadOnly: s.policy.Load().ReadOnly,
 		Port:     port,
 		Hostname: "localhost",
+
+		UseRecordMarking: true, // standard ONC RPC over TCP framing
 	})
 	if err != nil {
 		return err
